@@ -723,6 +723,12 @@ func run(cfg *lib.Config, res *lib.Result) {
 		if !modelTy(tys[c.a]) || !modelTy(tys[c.b]) || !outInModel(c.c) {
 			continue
 		}
+		// an alias operand is opaque to the lattice model (TOther: accepts nothing, accepted by Any only); that is
+		// what the code answers too, except under a negation: NotUndef[T] asks whether the OTHER type accepts Undef,
+		// which Data and RichData do.  Alias against a type with a NotUndef inside is outside the model (D covers it).
+		if (tys[c.a].dec.K == "Alias" && lat.Contains(tys[c.b].dec, "NotUndef")) || (tys[c.b].dec.K == "Alias" && lat.Contains(tys[c.a].dec, "NotUndef")) {
+			continue
+		}
 		g := lat.GTy(c.c)
 		if g == lat.GTy(tys[c.a].dec) || g == lat.GTy(tys[c.b].dec) {
 			co = append(co, c)
@@ -846,10 +852,11 @@ func looseTuple(t *types.VerifTy) bool {
 
 func soundTags(T, D *types.VerifTy) []string {
 	switch {
+	case lat.Contains(T, "Struct") && lat.Contains(D, "Hash"):
+		// the by-specification rule, also below an Iterable (Iterable[Struct[..]] accepts Tuple[Hash[..], ..])
+		return []string{"byspec-struct-accepts-hash"}
 	case lat.Contains(T, "Iterable"):
 		return []string{"iterable"}
-	case lat.Contains(T, "Struct") && lat.Contains(D, "Hash"):
-		return []string{"byspec-struct-accepts-hash"}
 	}
 	return []string{"sound:" + T.K + "<-" + D.K}
 }
